@@ -94,6 +94,47 @@ def make_app(proj: str, cache_dir: str, tpl: str | None = None) -> Any:
 	return App(defs)
 
 
+# budgets: one real-code operation, and the whole run (a slow or non-terminating case is a result, never a hang)
+OP_BUDGET_S = 90.0
+SKIPPED: dict[str, int] = {}
+
+
+class OpTimeout(BaseException):
+	"""Raised by the interval timer inside a real-code call (BaseException: tranp's `except Exception` does not swallow it)."""
+
+
+class op_budget:
+	def __init__(self, seconds: float = OP_BUDGET_S) -> None:
+		self.seconds = seconds
+		self.armed = False
+
+	def __enter__(self) -> 'op_budget':
+		import signal
+		import threading
+		if threading.current_thread() is threading.main_thread():
+			def fire(_sig: int, _frm: Any) -> None:
+				raise OpTimeout()
+			self.old = signal.signal(signal.SIGALRM, fire)
+			signal.setitimer(signal.ITIMER_REAL, self.seconds)
+			self.armed = True
+		return self
+
+	def __exit__(self, *a: Any) -> None:
+		import signal
+		if self.armed:
+			signal.setitimer(signal.ITIMER_REAL, 0)
+			signal.signal(signal.SIGALRM, self.old)
+
+
+def over_deadline(ctx: Ctx, what: str) -> bool:
+	"""Total wall deadline of the run's streams and searches: what does not fit is skipped and counted (evidence notes), not waited for."""
+	import time
+	if time.time() - ctx.t0 > (2400 if ctx.thorough else 420):
+		SKIPPED[what] = SKIPPED.get(what, 0) + 1
+		return True
+	return False
+
+
 # memoised values are shared by everybody who asks again: a caller that mutates one changes what every later caller sees
 # (seeded C04-8: `Class.inherits` memoised, consumed by `inherits.pop(0)` in another file). The AST inventory cannot see a
 # mutation through a local alias, so the memo layer of the real code hands out lists / dicts / sets that RECORD every in-place
@@ -167,17 +208,41 @@ class RealSession:
 	# ops ---------------------------------------------------------------------------------
 
 	def load(self, m: str) -> tuple[str, Any]:
+		return self._budgeted(lambda: self._load(m))
+
+	def unload(self, m: str) -> tuple[str, Any]:
+		return self._budgeted(lambda: self._unload(m))
+
+	def transpile(self, m: str) -> tuple[str, Any]:
+		return self._budgeted(lambda: self._transpile(m))
+
+	def resubmit(self, source: str) -> tuple[str, Any]:
+		return self._budgeted(lambda: self._resubmit(source))
+
+	@staticmethod
+	def _budgeted(f: Any) -> tuple[str, Any]:
+		"""One real-code operation under the per-operation budget: exceeding it is an outcome of its own (the model never gives it)."""
+		try:
+			with op_budget():
+				return f()
+		except OpTimeout:
+			return 'timeout', f'no answer within {OP_BUDGET_S:.0f} s'
+
+	def _load(self, m: str) -> tuple[str, Any]:
 		try:
 			self.modules.load(m)
 			return 'ok', None
 		except Exception as e:  # noqa: BLE001
 			return 'load-error', canon(e)
 
-	def unload(self, m: str) -> tuple[str, Any]:
-		self.modules.unload(m)
-		return 'ok', None
+	def _unload(self, m: str) -> tuple[str, Any]:
+		try:
+			self.modules.unload(m)
+			return 'ok', None
+		except Exception as e:  # noqa: BLE001 - unload is not supposed to raise: visible as an outcome the model never gives
+			return 'unload-error', canon(e)
 
-	def transpile(self, m: str) -> tuple[str, Any]:
+	def _transpile(self, m: str) -> tuple[str, Any]:
 		try:
 			mod = self.modules.load(m)
 		except Exception as e:  # noqa: BLE001
@@ -187,7 +252,7 @@ class RealSession:
 		except Exception as e:  # noqa: BLE001
 			return 'render-error', canon(e)
 
-	def resubmit(self, source: str) -> tuple[str, Any]:
+	def _resubmit(self, source: str) -> tuple[str, Any]:
 		"""Interactive.run's body for one submission (bin/transpile.py:419-421)."""
 		try:
 			mod = self.inter.rebuild_module(source)
@@ -204,6 +269,12 @@ class RealSession:
 		return [m.path for m in self.modules.loaded()]
 
 	def observe(self, res: str) -> str:
+		try:
+			return self._observe(res)
+		except Exception as e:  # noqa: BLE001 - reading the state raised: an observation the model never gives
+			return f'{res}|observe-error:{canon(e)}'
+
+	def _observe(self, res: str) -> str:
 		counts: dict[str, int] = {}
 		for k in self.db.keys():
 			m = k.split('#')[0]
@@ -276,7 +347,8 @@ def result_str(kind: str, payload: Any) -> str:
 		return kind
 	if kind == 'render-error':
 		return 'render-error'
-	return str(payload)
+	text = str(payload) if kind == 'load-error' else f'{kind}:{payload}'
+	return ''.join(c if c.isprintable() and c not in '|\t' else '?' for c in text)[:200]
 
 
 # ---------------------------------------------------------------------------------------------
@@ -972,7 +1044,10 @@ def first_diff(a: list[Any], b: list[Any]) -> str:
 
 
 def short(res: list[Any]) -> str:
-	return f'{res[0]}:{str(res[1])[-80:]!r}' if res[0] == 'text' else f'{res[0]}:{res[1]}'
+	try:
+		return f'{res[0]}:{str(res[1])[-80:]!r}' if res[0] == 'text' else f'{res[0]}:{str(res[1])[:200]}'
+	except Exception:  # noqa: BLE001 - a result of an unexpected shape is shown as it is
+		return repr(res)[:200]
 
 
 # ---------------------------------------------------------------------------------------------
@@ -1043,13 +1118,43 @@ def session_run(ctx: Ctx, case: dict[str, Any]) -> dict[str, Any]:
 	return _RUNS[case['id']]
 
 
+def correspond_budgeted(ctx: Ctx, name: str, triples: list[Any]) -> Stream:
+	"""The model side under a budget: the whole stream first; when that does not answer in time, case by case, and a case the model
+	does not answer within its own budget is a disagreement of that case (not a hang, not a lost run)."""
+	import functools
+	orig = common.lean_driver
+	try:
+		common.lean_driver = functools.partial(orig, timeout=600 if ctx.thorough else 150)  # type: ignore[assignment]
+		try:
+			return common.correspond(name, triples, 'session', classify=case_class)
+		except common.InfraError as e:
+			if 'timeout' not in str(e):
+				raise
+		good, slow = [], []
+		for t in triples:
+			try:
+				orig('session', t[1], timeout=45)
+				good.append(t)
+			except common.InfraError:
+				slow.append(t)
+		st = common.correspond(name, good, 'session', classify=case_class)
+		for t in slow:
+			st.cases += 1
+			st.disagreements.append({'case': t[0], 'op_index': 0, 'op': '(whole case)', 'real': 'answered', 'model': 'no answer within 45 s', 'ops': t[1]})
+		return st
+	finally:
+		common.lean_driver = orig  # type: ignore[assignment]
+
+
 def stream_session(ctx: Ctx, name: str, cases: list[dict[str, Any]]) -> Stream:
 	triples = []
 	for case in cases:
+		if case['id'] not in _RUNS and over_deadline(ctx, f'stream {name}'):
+			continue
 		run = session_run(ctx, case)
 		pre = world_lines(ctx, case['pool'])
 		triples.append((case, [*pre, *run['lines']], ['ok'] * len(pre) + run['real']))
-	st = common.correspond(name, triples, 'session', classify=case_class)
+	st = correspond_budgeted(ctx, name, triples)
 	for d in st.disagreements:
 		if isinstance(d.get('case'), dict):
 			d['case'] = {'id': d['case'].get('id'), 'pool': d['case'].get('pool'), 'ops': d['case'].get('ops')}
@@ -1067,6 +1172,8 @@ def search_fresh(ctx: Ctx, cases: list[dict[str, Any]], all_seed_cases: int) -> 
 	res = SearchResult('every transpile/resubmit result of a session == the same request in a fresh process (empty cache dir), PYTHONHASHSEED in {0,1,2,random}')
 	seen: set[str] = set()
 	for n, case in enumerate(cases):
+		if case['id'] not in _RUNS or over_deadline(ctx, 'search fresh'):
+			continue
 		run = session_run(ctx, case)
 		seeds = HASH_SEEDS if n < all_seed_cases else [HASH_SEEDS[n % len(HASH_SEEDS)]]
 		compare_with_fresh(ctx, res, case, run, seeds, seen)
@@ -1301,6 +1408,8 @@ def search_interactive(ctx: Ctx) -> SearchResult:
 	rng = ctx.sub_rng('interactive')
 	seen: set[str] = set()
 	for n in range(ctx.scale(1, 8)):
+		if over_deadline(ctx, 'search interactive'):
+			continue
 		pool: list[dict[str, Any]] = []
 		for name in ['app.a', 'app.ab', 'app.b']:
 			pool.append(good_module(rng, name, list(pool)))
@@ -1342,6 +1451,8 @@ def search_runner(ctx: Ctx) -> SearchResult:
 	rng = ctx.sub_rng('runner')
 	seen: set[str] = set()
 	for n in range(ctx.scale(1, 3)):
+		if over_deadline(ctx, 'search runner'):
+			continue
 		pool: list[dict[str, Any]] = []
 		names = ['app.a', 'app.ab', 'app.b', 'app.ba']
 		for name in names:
@@ -1361,7 +1472,10 @@ def search_runner(ctx: Ctx) -> SearchResult:
 				config = types.SimpleNamespace(force=True, profile=False, verbose=False, output_language='h', output_dirs=[outdir])
 				paths = ModulePaths([ModulePath(t, language='py') for t in perm])
 				runner = Runner(app.resolve(ISourceLoader), config, paths, app.resolve(Modules), app.resolve(ModuleMetaFactory), app.resolve(ITranspiler))
-				runner.run()
+				with op_budget(OP_BUDGET_S * 2):
+					runner.run()
+			except OpTimeout:
+				err = 'timeout: the Runner did not finish within its budget'
 			except Exception as e:  # noqa: BLE001
 				err = canon(e)
 			stopped = False
@@ -1511,6 +1625,8 @@ def run_checked(ctx: Ctx, before: str | None) -> int:
 		]
 		# last: sees what every session of this run recorded
 		searches.insert(3, timed('memo', search_memo, ctx, [c for c in [*corpus, *valid, *faulty] if c['id'] in _RUNS]))
+	if SKIPPED:
+		ctx.notes.append(f'skipped for the wall deadline of the run (counted, not waited for): {SKIPPED}')
 	if before is not None and tree_fingerprint() != before:
 		raise common.InfraError(f'{common.REPO} changed while the check was running: session and fresh-process results are not comparable, run again')
 	return common.finish(ctx, proof, streams, searches, statements=STATEMENTS, partial=PARTIAL, assumptions=ASSUMPTIONS, translate_ok=translate_ok, translate_msg=translate_msg,
